@@ -53,6 +53,11 @@ def expected(seed, n):
         e[('sum_after_asyncs', r)] = '%d local=%d' % (n * (n * (n + 1) // 2), n * (n + 1) // 2)
         e[('prefix_sum', r)] = str(sum(a[:r]))
         e[('prefix_sum_u64', r)] = str(sum(x + 1 for x in range(r)))
+        if r <= 1:
+            e[('prefix_sum_dbl_big', r)] = str(0 if r == 0 else 4)
+        e[('prefix_sum_dbl', r)] = str(sum(2 * x + 1 for x in range(r)))
+        e[('prefix_sum_flt', r)] = str(4 * sum(x + 1 for x in range(r)))
+        e[('prefix_sum_i32', r)] = str(sum((-(x + 1) if x % 2 else x + 1) for x in range(r)))
         e[('logical_and', r)] = str(int(all(inp(seed, x, 7) > -900 for x in range(n))))
         e[('logical_or', r)] = str(int(any(inp(seed, x, 8) > 900 for x in range(n))))
         e[('logical_and_all', r)] = '1'
